@@ -188,6 +188,8 @@ class MoveProp(core.Prop):
                 continue
             n = len(desc["agents"])
             for _ in range(15 if quick else 30):
+                if rng.random() < 0.08:
+                    desc = _retable(rng, sess, desc)      # the overlap table is replaced on the live grid
                 a = rng.randrange(n)
                 ag = sess.w.agent_list[a]
                 if not ag.active and rng.random() < 0.9:
@@ -213,6 +215,30 @@ class MoveProp(core.Prop):
             raise ValueError("driver could not parse the implementation outcome")
         case.tags.append("preWInv:%d" % ms[2])
         return core.Verdict(wire.enc(model), ms[self.spec_idx] == 1, is_[self.spec_idx] == 1)
+
+
+def _retable(rng, sess, desc):
+    """replace the overlap table of the live grid through the public setter (between two calls of one session) by
+    another one under which the agents that share a cell now may still do so; returns the description that goes
+    with the cases from now on (the first table stays in it as the table the grid was built with)"""
+    encs = sorted({a["enc"] for a in desc["agents"]})
+    new = gridw.gen_overlap(rng, encs)
+    sym = gridw.closed(new)
+    grid = sess.w.grid
+    for r in range(grid.rows):
+        for c in range(grid.cols):
+            cell = grid[r, c]
+            if cell and len(cell) > 1:
+                es = [ag.encoding for ag in cell.values()]
+                for i, e in enumerate(es):
+                    if not gridw.may_join(sym, e, es[:i] + es[i + 1:]):
+                        return desc                    # the new table would make the present state illegal: keep the old
+    ov = {int(e): set(int(x) for x in s) for e, s in new}
+    grid.overlapping = ov if ov else None
+    sess.stat = sess.w.stat_wire()
+    d2 = dict(desc, overlap=new)
+    d2.setdefault("overlap0", desc["overlap"])
+    return d2
 
 
 def _relocate(rng, desc):
